@@ -31,16 +31,16 @@ def both(q1=320_000, t1=12_000_000, q2=96_000, t2=4_000_000):
 
 
 PLAN = {
-    "C01": {"level": "exploration", "parts": both()},
+    "C01": {"level": "exploration", "parts": both() + [poll(16_000, 400_000)]},
     "C03": {"level": "exploration", "parts": [l2(160_000, 6_000_000), sched(400_000, 8_000_000)]},
     "C04": {"level": "exploration", "parts": both()},
     "C05": {"level": "exploration", "parts": both()},
     "C06": {"level": "exploration", "parts": both()},
     "C07": {"level": "exploration", "parts": both()},
     "C08": {"level": "exploration", "parts": both()},
-    "C09": {"level": "exploration", "parts": [l2(160_000, 6_000_000)]},
-    "C10": {"level": "exploration", "parts": [l2(160_000, 6_000_000)]},
-    "C11": {"level": "exploration", "parts": [l2(160_000, 6_000_000)]},
+    "C09": {"level": "exploration", "parts": [l2(160_000, 6_000_000), poll(16_000, 400_000)]},
+    "C10": {"level": "exploration", "parts": [l2(160_000, 6_000_000), poll(16_000, 400_000)]},
+    "C11": {"level": "exploration", "parts": [l2(160_000, 6_000_000), poll(16_000, 400_000)]},
     "C12": {"level": "exploration", "parts": [l2(160_000, 6_000_000), sched(400_000, 8_000_000)]},
     "C13": {"level": "exploration", "parts": [l2(160_000, 6_000_000)]},
     "C14": {"level": "exploration", "parts": [l2(96_000, 3_000_000)]},
